@@ -54,6 +54,10 @@ def instances(tier):
         out.append(dict(id="two-calls-reversal-%s-N3" % fam, family=fam, N=3, mode="twocalls", reverse=True, budget=b))
         out.append(dict(id="shift-%s-N%d" % (fam, min(N, 3)), family=fam, N=min(N, 3), mode="shift", rhs_mode="uf", budget=b))
         out.append(dict(id="reflect-%s-N%d" % (fam, min(N, 3)), family=fam, N=min(N, 3), mode="reflect", rhs_mode="uf", budget=b))
+    # runs with events (events oracle): non-terminal events change nothing about the steps; after a terminal event the continuation again
+    # takes the requested step
+    for evs in ("n", "T"):
+        out.append(dict(id="events-euler-%s-N2" % evs, family="euler", N=2, mode="events", events=[evs], dense=False, max_reports=2, kind="integrate", budget=b))
     return out
 
 
@@ -71,6 +75,9 @@ def _integrate(c, inst, a, kind, cap, P):
 
 
 def scenario(c, inst):
+    if inst.get("mode") == "events":
+        from . import events_common as EC
+        return EC.scenario(c, dict(inst, dt_le_span=True), {"C04"})
     t0, tf, dt0 = c.real("t0"), c.real("tf"), c.real("dt0")
     span, adt = spans.input_assumptions(c, inst, t0, tf, dt0)
     c.assume(adt <= span)
